@@ -1293,6 +1293,8 @@ val card_star : z -> char list
 
 val sx_lines : sxf -> nat -> char list list
 
+val xml_escape : bool -> char list -> char list
+
 val render_splot : splot_doc -> char list
 
 val splot_text : fm -> char list result
